@@ -79,7 +79,30 @@ class Gen:
         self.tag += 1
         t = "t%d" % self.tag
         a, b, c = self.v(), self.v(), self.v()
-        k = r.below(38)
+        k = r.below(42)
+        if k >= 40:
+            # one duplex connection with a reader and a writer fiber suspended on it at once; every reference is dropped
+            self.note("duplex-two-ops")
+            n = r.choice([300000, 700000, 1500000])
+            return ("(do (def path (string \"/tmp/c01-sock-\" (os/getpid) \"-%s\")) (def listener (net/listen :unix path)) (def client (net/connect :unix path)) "
+                    "(def rd (ev/chan 1)) "
+                    "(defn setup [] (def conn (net/accept listener)) (def payload (buffer/new-filled %d (chr \"x\"))) "
+                    "(ev/go (fn [] (ev/write conn payload) (ev/close conn))) (ev/go (fn [] (ev/give rd (string (ev/read conn 4))))) nil) "
+                    "(setup) (ev/sleep 0) (ev/sleep 0) (def junk (seq [j :range [0 %d]] @[j])) (ev/write client \"ping\") (show \"%s-r\" (ev/take rd)) (ev/sleep 0) "
+                    "(def junk2 (seq [j :range [0 %d]] @[j %s])) (var total 0) (def buf @\"\") (while (ev/read client 65536 (buffer/clear buf) 30) (+= total (length buf))) "
+                    "(ev/close client) (ev/close listener) (os/rm path) (show \"%s\" total))"
+                    % (t, n, r.range(1, 30), t, r.range(1, 60), b, t))
+        if k >= 38:
+            # parser driven through consume / eof / error / flush with allocation in between
+            self.note("parser-eof-error")
+            src = r.choice(['(defn f [x] (print \\"abc', '(a [b {c @(d @[e', '[1 2 3 (4 5 {:a :b', '((((((((', '(1 2 @[3 }', '{:a 1 :b ]', '\\"open string', '@{:k [1 2'])
+            ops = []
+            for _ in range(r.range(1, 3)):
+                ops.append(r.choice(["(def junk (seq [j :range [0 %d]] (string \"s-\" j (string/repeat \"q\" (%% j 40)))))" % r.range(20, 200),
+                                     "(def junk (seq [j :range [0 %d]] @[j]))" % r.range(1, 40)]))
+            return ("(do (def p (parser/new)) (parser/consume p \"%s\") %s (try (parser/eof p) ([err] nil)) (def st (parser/status p)) (set %s p) %s "
+                    "(def e (parser/error p)) (print \"%s \" st \" \" e) %s (parser/flush p) (show \"%s-b\" (parser/status p)))"
+                    % (src, r.choice(["", "(parser/eof p)"]) if False else "", a, " ".join(ops), t, ops[0], t))
         if k >= 36:
             # a fiber suspended in a resumable status that created closures over its locals; frame and closures both
             # mutate the captured variable after each resume and read the other side's writes
